@@ -197,17 +197,24 @@ def build_function(case, order, checker_name, spelling, category="Shaped", array
     return fn, ns, src
 
 
-def build_dataclass(case, order, checker_name):
+def build_dataclass(case, order, checker_name, split=None):
+    """split=k: a jaxtyped base dataclass with the first k fields and a jaxtyped subclass adding the rest."""
     cat = Shaped
-    ns = {}
     fields = []
     for i in order:
         p = case["params"][i]
-        ns[f"A_{p['name']}"] = cat[np.ndarray, spec_of(p)]
-        fields.append((p["name"], ns[f"A_{p['name']}"]))
-    D = dataclasses.make_dataclass("D", fields)
+        fields.append((p["name"], cat[np.ndarray, spec_of(p)]))
+    tc = checker(checker_name)
+    if split is None or split <= 0 or split >= len(fields):
+        D = dataclasses.make_dataclass("D", fields)
+        D.__module__ = "vf_generated"
+        return jaxtyped(typechecker=tc)(D)
+    Base = dataclasses.make_dataclass("DBase", fields[:split])
+    Base.__module__ = "vf_generated"
+    Base = jaxtyped(typechecker=tc)(Base)
+    D = dataclasses.make_dataclass("DSub", fields[split:], bases=(Base,))
     D.__module__ = "vf_generated"
-    return jaxtyped(typechecker=checker(checker_name))(D)
+    return jaxtyped(typechecker=tc)(D)
 
 
 def call_args(case, order, style, make=lambda shape: np.zeros(shape)):
